@@ -40,6 +40,7 @@ Leaf == c.stage = "leaf"
 Mods == IF c.defaults THEN ModifierRoots(c.par) ELSE {}
 
 Sane == Leaf => SubSane(c.par, c.root, c.leaves)
+DefsAgree == (Leaf /\ SubOk(c.par, c.root, c.leaves)) => SubTermSets(c.par, c.root, c.leaves) = SubTermSetsDef(c.par, c.root, c.leaves)
 
 Result ==
   IF ~SubOk(c.par, c.root, c.leaves) THEN [ok |-> FALSE, allowed |-> <<>>]
